@@ -85,6 +85,15 @@ def check(ctx):
                 lines.append(call(sh + "_script", [ord(c) for c in text]))
         lines.append(call("argv", s, n=rng.choice([0, 1, 2, 3, 10, 11])))
         lines.append(call("argv_n", s, n=rng.choice([0, 1, 2, 3, 10])))
+    # help texts: through the write callback (mshell) and into caller-supplied buffers of every small size (rshell; a buffer of at
+    # least one byte, for the tables form two: room for the terminators)
+    for tabn in (1, 2, 3):
+        lines.append(call("mshell_help", [], n=tabn))
+        for amax in list(range(1, 40)) + [64, 255, 256, 300]:
+            lines.append(call("rshell_help", [], b=[amax % 256, amax // 256], n=tabn))
+    lines.append(call("mshell_tables_help", []))
+    for amax in list(range(2, 60)) + [64, 255, 256, 300]:
+        lines.append(call("rshell_tables_help", [], b=[amax % 256, amax // 256]))
     comps = ["dev", "null", ".", "..", "a", "", "x.y", ".hidden", "b"]
     for i in range(12000 if ctx.thorough else 400):
         def mk():
